@@ -17,6 +17,7 @@ import (
 	"strconv"
 	"strings"
 	"sync"
+	"sync/atomic"
 	"testing"
 	"time"
 )
@@ -357,4 +358,17 @@ func Catch(f func() error) (err error, panicked bool) {
 		}
 	}()
 	return f(), false
+}
+
+var childCoverN int32
+
+// ChildCoverArgs returns the extra test-binary arguments that make a child process (a re-execution of this test binary)
+// write its own coverage profile, when the monitor itself runs in coverage mode (./check with VERIF_COVER=1).
+func ChildCoverArgs() []string {
+	dir := os.Getenv("VERIF_CHILD_COVER_PREFIX")
+	if dir == "" {
+		return nil
+	}
+	n := atomic.AddInt32(&childCoverN, 1)
+	return []string{fmt.Sprintf("-test.coverprofile=%s.child%d.%d.cover", dir, os.Getpid(), n)}
 }
